@@ -88,6 +88,9 @@ class SymWorld(S.World):
     def inf(self):
         return S.inf
 
+    def vmap(self, f, in_axes=0):
+        return S.vmap(f, in_axes=in_axes)
+
     def random_key(self, name="key"):
         class _Key:
             pass
@@ -480,6 +483,10 @@ class NumWorld:
 
     def inf(self):
         return self.xp.inf
+
+    def vmap(self, f, in_axes=0):
+        import jax
+        return jax.vmap(f, in_axes=in_axes)
 
     def random_key(self, name="key"):
         import jax
